@@ -278,7 +278,7 @@ ssize_t send(int fd, const void *buf, size_t len, int flags)
         if (e->kind == 1 && p->frag_send_pct > 0 && len > 1 && (int)(prng(p) % 100) < p->frag_send_pct) {
             int k = frag_len(p, len - 1);
             ssize_t rc = real_send(fd, buf, (size_t)k, flags);
-            if (rc > 0) { p->n_short_send++; trk_feed(p, &e->out, buf, (size_t)rc, true); if (p->refuse_after_partial) p->pending_refuse = true; }
+            if (rc > 0) { p->n_short_send++; p->bytes_out += rc; trk_feed(p, &e->out, buf, (size_t)rc, true); if (p->refuse_after_partial) p->pending_refuse = true; }
             else if (rc < 0 && errno == EAGAIN) p->n_real_eagain_send++;
             vs_note("send fd%d len%zu -> short %zd (%s ep%d)", fd, len, rc, cur.api, cur.ep);
             return rc;
@@ -287,7 +287,7 @@ ssize_t send(int fd, const void *buf, size_t len, int flags)
     ssize_t rc = real_send(fd, buf, len, flags);
     int se = errno;
     if (p && data) {
-        if (rc > 0) trk_feed(p, &e->out, buf, (size_t)rc, true);
+        if (rc > 0) { p->bytes_out += rc; trk_feed(p, &e->out, buf, (size_t)rc, true); }
         else if (rc < 0 && se == EAGAIN) { p->n_real_eagain_send++; if (trk_mid(&e->out)) p->refused_mid_frame++; }
     }
     vs_note("send fd%d len%zu -> %zd e%d (%s ep%d)", fd, len, rc, rc < 0 ? se : 0, cur.api, cur.ep);
@@ -321,7 +321,7 @@ ssize_t recv(int fd, void *buf, size_t len, int flags)
     ssize_t rc = real_recv(fd, buf, ask, flags);
     int se = errno;
     if (p && data) {
-        if (rc > 0) { if (ask < len) p->n_short_recv++; trk_feed(p, &e->in, buf, (size_t)rc, false); }
+        if (rc > 0) { if (ask < len) p->n_short_recv++; p->bytes_in += rc; trk_feed(p, &e->in, buf, (size_t)rc, false); }
         else if (rc < 0 && se == EAGAIN) p->n_real_eagain_recv++;
     }
     vs_note("recv fd%d cap%zu ask%zu -> %zd e%d (%s ep%d)", fd, len, ask, rc, rc < 0 ? se : 0, cur.api, cur.ep);
